@@ -179,6 +179,26 @@ class Check:
             self.trust("Print Assumptions axiom: " + a)
         return axioms
 
+    def coqchk(self, timeout=2400):
+        """Thorough tier: re-check the compiled property files and everything they depend on with the
+        independent checker coqchk, and record the axioms it reports."""
+        mods = ["SV.Properties." + os.path.basename(x)[:-2]
+                for x in sorted(glob.glob(os.path.join(COQ, "Properties", self.pid + "*.v")))]
+        if not mods:
+            return
+        cmd = ["coqchk", "-silent", "-o", "-Q", COQ, "SV"] + mods
+        self.checker_cmds.append(" ".join(cmd).replace(VERIF + "/", ""))
+        rc, out = sh(cmd, cwd=COQ, timeout=timeout)
+        self.note("coqchk rc", rc, out[-1500:])
+        if rc == 124:
+            self.trust("coqchk: not completed within %d s (recorded, not counted as an obligation)" % timeout)
+            return
+        self.oblige("coqchk re-check of " + ", ".join(mods), rc == 0, out)
+        m = re.search(r"\* Axioms:(.*?)\n\s*\n\* Constants", out, re.S)
+        if m:
+            ax = [a.strip() for a in m.group(1).strip().splitlines() if a.strip()]
+            self.trust("coqchk axioms over the whole closure (libraries included): " + (", ".join(ax) if ax else "<none>"))
+
     def trust(self, s):
         if s not in self.trusted:
             self.trusted.append(s)
